@@ -285,6 +285,15 @@ def _run_select(ctx, run):
     kwargs = {'candidates': [o for o, _ in objs]}
     if run.get('selection_sample_size'):
         kwargs['selection_sample_size'] = run['selection_sample_size']
+    h = derive_seed('filters_next_to_list', run['data']['seed'])
+    if h % 4 == 0:
+        # filter arguments given NEXT TO an explicit list: documented as ignored
+        from copulas.univariate.base import BoundedType, ParametricType
+        kwargs['parametric'] = [ParametricType.PARAMETRIC, ParametricType.NON_PARAMETRIC][(h // 4) % 2]
+        if (h // 8) % 2:
+            kwargs['bounded'] = [BoundedType.BOUNDED, BoundedType.SEMI_BOUNDED,
+                                 BoundedType.UNBOUNDED][(h // 16) % 3]
+        ctx.probes['filters_given_next_to_explicit_list'] += 1
     uni = Univariate(**kwargs)
     cand_list = kwargs['candidates']
     cand_ids = [id(o) for o in cand_list]
@@ -456,7 +465,12 @@ def _run_gmv(ctx, run):
             protos[c['tag']] = (o, sh, c)
     before = {k: _proto_state(p[0]) for k, p in protos.items()}
     dist_items = [(k, id(v)) for k, v in dist.items()] if isinstance(dist, dict) else None
-    model = GaussianMultivariate(distribution=dist)
+    mkw = {}
+    if derive_seed('seeded_model', run['table']['seed']) % 3 == 0:
+        # a seeded model: the seed is the model's, the marginals are configured as given
+        mkw['random_state'] = run['state'] % 100000
+        ctx.probes['seeded_multivariate_model'] += 1
+    model = GaussianMultivariate(distribution=dist, **mkw)
     with sterile(run['state']):
         out = outcome(model.fit, df)
     ctx.stats['fits'] += 1
